@@ -1164,6 +1164,13 @@ def c07(tier, rep):
     kp = fa.capture_pair_programs(tier)
     fr3 = e2.run_family("c07captures", kp)
     judge_family(rep, fr3)
+    # the spawn variants and aliases in a scope that has its own items called std / tokio / futures / core / alloc: they expand and
+    # evaluate exactly where the plain macros do (shared with C17)
+    from . import fam_names, dsl as _dsl
+
+    hp_ = [q for q in fam_names.hostile_scope_programs() if q.meta["macro"] in _dsl.SPAWN]
+    fr4 = e2.run_family("c07hostile", hp_, extra_header=fam_names.NEST_HEADER)
+    judge_family(rep, fr4)
     rep.set("programs", len(progs) + len(cp) + len(kp))
     # (b) real expansion text: alias == long name (== join_impl as a library)
     exe = e1.build()
